@@ -371,6 +371,59 @@ pub trait WriteExt: Write {
     @sig
         ensures final(self).out() == old(self).out() + T::enc_signed(num),
     @*/
+
+    // AR: `B: AsRef<[u8]>` is replaced by the local trait `VxBytes` (below), see there
+    /*@extract yrs/src/encoding/write.rs | trait Write: Sized | fn write_buf | rules=SUB(from=AsRef<[u8]>;;to=VxBytes)
+    @sig
+        ensures final(self).out() == old(self).out() + enc_buf(buf.bytes()),
+    @start
+        let ghost b = buf.bytes();
+    @before 1 `stmt:call write_all`
+        proof {
+            assert(old(self).out() + enc_uint(b.len()) + b =~= old(self).out() + enc_buf(b));
+        }
+    @*/
+}
+
+// AR: Verus has no specification for std's `AsRef` (an external trait).  `VxBytes` is a local stand-in with the same
+// method name, implemented for the byte containers this layer passes to `write_buf` (`Vec<u8>`, `[u8]`, references to
+// those — the impls std provides); `as_ref` returns exactly the container's bytes, as std documents.  The impl bodies
+// are verified, not trusted; what is trusted is that std's `AsRef<[u8]>` impls for these types behave the same.
+pub trait VxBytes {
+    spec fn bytes(&self) -> Seq<u8>;
+
+    fn as_ref(&self) -> (r: &[u8])
+        ensures r@ == self.bytes();
+}
+
+impl VxBytes for Vec<u8> {
+    open spec fn bytes(&self) -> Seq<u8> {
+        self@
+    }
+
+    fn as_ref(&self) -> (r: &[u8]) {
+        self.as_slice()
+    }
+}
+
+impl VxBytes for [u8] {
+    open spec fn bytes(&self) -> Seq<u8> {
+        self@
+    }
+
+    fn as_ref(&self) -> (r: &[u8]) {
+        self
+    }
+}
+
+impl<T: VxBytes + ?Sized> VxBytes for &T {
+    open spec fn bytes(&self) -> Seq<u8> {
+        (**self).bytes()
+    }
+
+    fn as_ref(&self) -> (r: &[u8]) {
+        (**self).as_ref()
+    }
 }
 
 impl<W: Write> WriteExt for W {}
